@@ -289,6 +289,11 @@ func body(c *sched.Ctl, cs Case, v *ev.Verdict) {
 			switch op.K {
 			case "lock":
 				ctx, cancel := context.WithCancel(context.Background())
+				if a.id%3 == 0 {
+					// a context that is cancelled with a cause: Err() is still context.Canceled
+					cctx, ccancel := context.WithCancelCause(context.Background())
+					ctx, cancel = cctx, func() { ccancel(fmt.Errorf("cancel-cause-%d", a.id)) }
+				}
 				a.cancel = cancel
 				if op.Pre {
 					cancel()
@@ -301,7 +306,7 @@ func body(c *sched.Ctl, cs Case, v *ev.Verdict) {
 					a.returned, a.err, a.ok, a.release = true, err, err == nil, rel
 					if err != nil {
 						if err != context.Canceled {
-							fail("C01", "csync:lock-error", "Lock #%d returned unexpected error %v", a.id, err)
+							fail("C02", "csync:lock-error", "Lock #%d, whose context was cancelled, returned %v instead of context.Canceled", a.id, err)
 						}
 						if !a.cancelled {
 							fail("C01", "csync:spurious-cancel", "Lock #%d returned %v although its context was never cancelled", a.id, err)
